@@ -24,6 +24,7 @@ type FuncResult struct {
 	CallsiteHits map[string]int
 	SafetySkipped int
 	CallsiteAssumptions map[string]int
+	TS *TermStore // the term store the obligations live in
 }
 
 // runTop executes the function once (probe or final) and returns the executor.
@@ -197,6 +198,7 @@ type Verifier struct {
 	Quick  bool
 	Replay map[string]*ReplaySpec
 	unroll int
+	bvEnv  *Env
 }
 
 // UnrolledCounterexamples re-runs a function with loops unrolled (no invariants): obligations that come back
@@ -233,7 +235,32 @@ func (V *Verifier) UnrolledCounterexamples(key string, lockMode bool, k int) []*
 }
 
 // VerifyFunc: Houdini over the auto-candidates, then the final pass and discharge of all obligations.
+// envFor: functions whose contract says `ints bv` are verified with a separate environment in bit-vector mode.
+func (V *Verifier) envFor(key string) *Env {
+	fs := V.E.Specs.Funcs[key]
+	if fs == nil || fs.Ints != "bv" {
+		return V.E
+	}
+	if V.bvEnv == nil {
+		E := NewEnv(V.E.P)
+		E.BV = true
+		E.installStringAxioms()
+		E.Specs = V.E.Specs
+		V.bvEnv = E
+	}
+	return V.bvEnv
+}
+
 func (V *Verifier) VerifyFunc(key string, lockMode bool) *FuncResult {
+	saved := V.E
+	V.E = V.envFor(key)
+	defer func() { V.E = saved }()
+	res := V.verifyFunc(key, lockMode)
+	res.TS = V.E.TS
+	return res
+}
+
+func (V *Verifier) verifyFunc(key string, lockMode bool) *FuncResult {
 	E := V.E
 	res := &FuncResult{Key: key}
 	fn := E.P.Funcs[key]
